@@ -1866,7 +1866,6 @@ func (c *Ctx) c09Pool() {
 	}
 }
 
-
 // memGates finds the mailbox lock gates of the memory store by role: top-level functions of
 // the package (each instance of a generic one counts) that acquire the mailbox lock, take a
 // function parameter whose own first parameter is the mailbox, and call it.
@@ -1919,7 +1918,6 @@ func (c *Ctx) memGates(fMu *types.Var) []*ssa.Function {
 	sortFuncs(out)
 	return out
 }
-
 
 // memElementField: the back-reference from a memory-store message to its element in the
 // enforcer's list — the field of type *list.Element in mem.Message or in a record of the
